@@ -21,7 +21,14 @@
     * `parse_source_linear`: the whole pipeline, run with the budget `16n + 72` for the file parser and
       for each expression (and `7n + 8` for the lexer), never answers `fuelOut`;
     * `parse_source_budgets`: the budgets that `parseSource` — the function the correspondence checks run
-      against the real code — hands out are at most `16n + 72`, and it never answers `fuelOut`.
+      against the real code — hands out are at most `16n + 72`, and it never answers `fuelOut`;
+    * `parseFileFuel_mono` / `parseExprFuel_mono` (from Lemmas/FuelMono.lean): a larger budget gives the
+      same answer, hence `parseSourceFuel_eq`: the pipeline on the budget `16n + 72` IS `parseSource`
+      (`parse_source_linear'`), and `parseExprSourceFuel_eq` for the standalone expression;
+    * `parse_expr_linear`: the same end-to-end statement for `parse.Expr(str)` (lexer in expression
+      mode, expression parser, drain);
+    * `runPos_sorted`, `lexAll_positions_sorted`: the positions at which the state functions of a run
+      are entered never go back.
 
   What is NOT counted.
     * The rune reads INSIDE one state function.  Each state function's inner loop (`scanWhile`,
@@ -29,9 +36,9 @@
       recursion on the remaining input `len - pos` and every iteration advances `pos` (`next_rem_lt`);
       `pos` moves back only by `backup` (at most once per `next`, by the width of that rune), by the
       `l.pos--` of lexSoyDoc (once per line) and by the look-ahead of `maybeEmitText`.  The state
-      lemmas show `pos` never decreases across a state call (`Post.of`: `l.pos ≤ l'.pos`), so the reads
-      of one call are bounded by `(pos_after - pos_before) + a constant` — this is prose, not a theorem:
-      the models carry no read counter.
+      lemmas show `pos` never decreases across a state call (`runPos_sorted`, below), so the advances of
+      the calls sum to at most `n`; that the reads of one call are its advance plus a constant of
+      look-ahead is prose, not a theorem: the models carry no read counter.
     * String building: the cost of `tok.val` concatenation, `strings.Join`, the `String()` builders (the
       quadratic defects found at /repo 96546c0 and c3ff971 were there).  A count over state calls and
       tokens cannot see it; it is covered by the C05scale allocation probe only.
@@ -39,6 +46,7 @@
       `lexAll str true`, budget `7·|str| + 8`, `|str| ≤ n`).
 -/
 import SoyVerif.Props.C05parse
+import SoyVerif.Lemmas.FuelMono
 
 namespace SoyVerif.Props.C05
 open SoyVerif SoyVerif.Model SoyVerif.Model.Parser SoyVerif.Model.FileParser SoyVerif.Lemmas.ParserSafe
@@ -118,5 +126,240 @@ theorem parse_source_budgets (pf : Bytes → Option UInt64) (input : Bytes) :
   · unfold FileParser.fuelFor sourceFuel; omega
   · unfold exprFuel Parser.fuelFor sourceFuel; omega
   · unfold parseSource; rw [hl]; rfl
+
+/-! ## The standalone expression entry, `parse.Expr(str)` -/
+
+/-- `parseExprEntry` with the budget made a parameter -/
+def parseExprFuel (pf : Bytes → Option UInt64) (fuel : Nat) (items : List Item) : Except PErr Expr :=
+  match (Parser.parseExpr pf fuel 0).run (Parser.initState items) with
+  | Except.ok (e, _) => Except.ok e
+  | Except.error err => Except.error err
+
+theorem parseExprEntry_eq (pf : Bytes → Option UInt64) (items : List Item) :
+    parseExprEntry pf items = parseExprFuel pf (Parser.fuelFor items.length) items := rfl
+
+/-- on ANY token list a budget of `8·|items| + 10` steps — or more — suffices for the expression parser -/
+theorem parse_expr_total_fuel (pf : Bytes → Option UInt64) (fuel : Nat) (items : List Item)
+    (hfuel : 8 * items.length + 10 ≤ fuel) : parseExprFuel pf fuel items ≠ .error .fuelOut := by
+  have hmu := mu_init items
+  have hi : Inv ⟨False, False⟩ (fun _ => True) (Parser.initState items) :=
+    (inv_init (fun _ => True) items trivial (fun _ _ => trivial) (fun h => absurd h id) (fun h => absurd h id)).crude (fun h => h)
+  have h := (Lemmas.ParserSafe.exprSpecs_all pf True ⟨False, False⟩ (fun _ => True) trivial (fun _ _ => Or.inl trivial) fuel).parseExpr
+    0 (Parser.initState items) hi (by omega)
+  unfold PSafe at h
+  unfold parseExprFuel
+  simp only [StateT.run]
+  intro hc
+  split at hc
+  · exact absurd hc (by simp)
+  · rename_i e he
+    rw [he] at h
+    simp only [Except.error.injEq] at hc
+    subst hc
+    exact h
+
+/-- `parse.Expr(str)`: the lexer model in expression mode composed with the expression parser and
+    the drain of `Expr` / `tree.recover` (`Parser.exprEntry`) -/
+def parseExprSource (pf : Bytes → Option UInt64) (input : Bytes) : EntryOutcome :=
+  match Lex.lexAll input true with
+  | .items is => exprEntry pf is
+  | .panic => { result := .error .panic, drained := false }
+  | .fuelOut => { result := .error .fuelOut, drained := false }
+
+/-- … with the parser's budget a parameter -/
+def parseExprSourceFuel (pf : Bytes → Option UInt64) (F : Nat) (input : Bytes) : Except PErr Expr :=
+  match Lex.lexAll input true with
+  | .items is => parseExprFuel pf F is
+  | .panic => .error .panic
+  | .fuelOut => .error .fuelOut
+
+theorem exprEntry_result (pf : Bytes → Option UInt64) (items : List Item) :
+    (exprEntry pf items).result = parseExprEntry pf items := by
+  unfold exprEntry parseExprEntry
+  split <;> simp_all
+
+/-- END TO END OVER BYTES, standalone expression: for every byte string, valid or not, `parse.Expr`
+    ends within `7n + 8` state-function calls of the lexer and a parser budget of `16n + 72`; the
+    budget `parse.Expr`'s model hands out is at most that, it never runs out of it, and unless the
+    parser panics the lexer goroutine is drained -/
+theorem parse_expr_linear (pf : Bytes → Option UInt64) (input : Bytes) :
+    Lex.lexAll input true ≠ .fuelOut ∧
+    parseExprSourceFuel pf (sourceFuel input.length) input ≠ .error .fuelOut ∧
+    ∃ is, Lex.lexAll input true = .items is ∧ is.length ≤ 2 * input.length + 1 ∧
+      Parser.fuelFor is.length ≤ sourceFuel input.length ∧
+      (parseExprSource pf input).result = parseExprFuel pf (Parser.fuelFor is.length) is ∧
+      (parseExprSource pf input).result ≠ .error .fuelOut ∧
+      ((parseExprSource pf input).result ≠ .error .panic → (parseExprSource pf input).drained = true) := by
+  obtain ⟨is, hl, _⟩ := lex_items input true
+  have hle := lexAll_items_le input true is hl
+  have htot : parseExprFuel pf (Parser.fuelFor is.length) is ≠ .error .fuelOut :=
+    parse_expr_total_fuel pf _ is (by unfold Parser.fuelFor; omega)
+  have hres : (parseExprSource pf input).result = parseExprFuel pf (Parser.fuelFor is.length) is := by
+    unfold parseExprSource; rw [hl]; exact exprEntry_result pf is
+  refine ⟨lex_total input true, ?_, is, hl, hle, by unfold Parser.fuelFor sourceFuel; omega, hres, by rw [hres]; exact htot, ?_⟩
+  · unfold parseExprSourceFuel
+    rw [hl]
+    exact parse_expr_total_fuel pf _ is (by unfold sourceFuel; omega)
+  · intro hnp
+    have hd : (parseExprSource pf input).drained = (exprEntry pf is).drained := by
+      unfold parseExprSource; rw [hl]
+    have hr : (parseExprSource pf input).result = (exprEntry pf is).result := by
+      unfold parseExprSource; rw [hl]
+    rw [hd]
+    rw [hr] at hnp
+    have hnf : (exprEntry pf is).result ≠ .error .fuelOut := by rw [exprEntry_result]; exact htot
+    revert hnp hnf
+    unfold exprEntry
+    split <;> simp
+
+/-! ## Fuel monotonicity: a larger budget gives the same answer
+
+  (`Lemmas/FuelMono.lean`: every function of the expression parser and of the file parser, run on a
+  larger budget, returns the same result AND state unless the smaller run ended in `fuelOut`.) -/
+
+theorem parseFileFuel_mono (pf : Bytes → Option UInt64) {e e' a b : Nat} (he : e ≤ e') (hab : a ≤ b)
+    (items : List Item) (h : parseFileFuel pf e a items ≠ .error .fuelOut) :
+    parseFileFuel pf e' b items = parseFileFuel pf e a items := by
+  have hm := ((Lemmas.FuelMono.fileMono pf e e' he a b hab).itemListLoop [.tEOF] none .nil).le
+    { p := Parser.initState items }
+  unfold parseFileFuel at h ⊢
+  simp only [StateT.run] at h ⊢
+  rw [hm]
+  intro hc
+  rw [hc] at h
+  exact h rfl
+
+theorem parseExprFuel_mono (pf : Bytes → Option UInt64) {a b : Nat} (hab : a ≤ b)
+    (items : List Item) (h : parseExprFuel pf a items ≠ .error .fuelOut) :
+    parseExprFuel pf b items = parseExprFuel pf a items := by
+  have hm := ((Lemmas.FuelMono.exprMono pf a b hab).parseExpr 0).le (Parser.initState items)
+  unfold parseExprFuel at h ⊢
+  simp only [StateT.run] at h ⊢
+  rw [hm]
+  intro hc
+  rw [hc] at h
+  exact h rfl
+
+/-- the pipeline on the byte-linear budget IS `parseSource`, the function the correspondence checks tie
+    to the real `parse.SoyFile` -/
+theorem parseSourceFuel_eq (pf : Bytes → Option UInt64) (input : Bytes) :
+    parseSourceFuel pf (sourceFuel input.length) input = parseSource pf input := by
+  obtain ⟨is, hl, hle, hf1, hf2, heq, hne⟩ := parse_source_budgets pf input
+  rw [heq]
+  unfold parseSourceFuel
+  rw [hl]
+  exact parseFileFuel_mono pf hf2 hf1 is (by rw [← heq]; exact hne)
+
+/-- … and on any larger budget -/
+theorem parseSourceFuel_eq_of_le (pf : Bytes → Option UInt64) (input : Bytes) (F : Nat)
+    (hF : sourceFuel input.length ≤ F) : parseSourceFuel pf F input = parseSource pf input := by
+  obtain ⟨is, hl, hle, hf1, hf2, heq, hne⟩ := parse_source_budgets pf input
+  rw [heq]
+  unfold parseSourceFuel
+  rw [hl]
+  exact parseFileFuel_mono pf (by omega) (by omega) is (by rw [← heq]; exact hne)
+
+/-- the same for the standalone expression: the byte-linear budget gives the result of `parse.Expr`'s model -/
+theorem parseExprSourceFuel_eq (pf : Bytes → Option UInt64) (input : Bytes) :
+    parseExprSourceFuel pf (sourceFuel input.length) input = (parseExprSource pf input).result := by
+  obtain ⟨_, _, is, hl, _, hf, hres, hne, _⟩ := parse_expr_linear pf input
+  rw [hres]
+  unfold parseExprSourceFuel
+  rw [hl]
+  exact parseExprFuel_mono pf hf is (by rw [← hres]; exact hne)
+
+/-- `parse.SoyFile`'s model returns within a budget LINEAR in the byte length — stated about `parseSource` itself -/
+theorem parse_source_linear' (pf : Bytes → Option UInt64) (input : Bytes) :
+    parseSource pf input = parseSourceFuel pf (16 * input.length + 72) input ∧
+    parseSource pf input ≠ .error .fuelOut :=
+  ⟨(parseSourceFuel_eq pf input).symm, parse_source_total pf input⟩
+
+/-! ## What one state-function call reads (no counter: over the existing invariant)
+
+  `runPos` lists the position `pos` of the lexer at the ENTRY of each state-function call of a run.
+  The list is sorted and stays inside `[0, n]`: a state function never hands over to the next one
+  behind the position it was entered at.  So the advances `pos_(i+1) - pos_i` of the calls are
+  non-negative and sum to at most `n` (they telescope); the look-ahead a call reads beyond the position
+  it hands over is what its `backup`s give back — at most one rune per `next` (`Lexer.backup`:
+  `pos - width`), two bytes in `maybeEmitText(l, 2)`, six in `lexSoyDocParam`.  That last part is prose:
+  the model has no read counter. -/
+
+/-- the positions at which the state functions of a run are entered -/
+def runPos : Nat → Lex.St → Lex.Lexer → List Int
+  | 0, _, l => [l.pos]
+  | k + 1, s, l =>
+    match Lex.step s l with
+    | some (some s', l') => l.pos :: runPos k s' l'
+    | _ => [l.pos]
+
+theorem pos_le_of_phi_lt {n : Int} {s s' : Lex.St} {l l' : Lex.Lexer} (h1 : l.pos ≤ n) (h2 : l'.pos ≤ n)
+    (h : Lex.phi n s' l' < Lex.phi n s l) : l.pos ≤ l'.pos := by
+  have a := Lex.rankA_le s
+  have b := Lex.rankB_le s
+  unfold Lex.phi at h
+  by_cases hlt : l'.pos < l.pos
+  · rw [if_pos (show l'.pos < n by omega)] at h
+    split at h <;> omega
+  · omega
+
+/-- every state function is entered at or behind the position the one before it was entered at, inside the input -/
+theorem runPos_sorted (n : Int) : ∀ (k : Nat) (s : Lex.St) (l : Lex.Lexer), Lex.Good n l → Lex.Extra s l →
+    (∀ p ∈ runPos k s l, l.pos ≤ p ∧ p ≤ n) ∧ (runPos k s l).Pairwise (· ≤ ·) := by
+  intro k
+  induction k with
+  | zero =>
+    intro s l hg _
+    simp only [runPos, List.mem_singleton, forall_eq, List.pairwise_cons, List.not_mem_nil, false_implies,
+      implies_true, List.Pairwise.nil, and_self, and_true]
+    exact ⟨Int.le_refl _, hg.2.2.2⟩
+  | succ k ih =>
+    intro s l hg hx
+    obtain ⟨⟨s', l'⟩, hstep, hpost⟩ := Lex.step_ok s hg hx
+    unfold runPos
+    rw [hstep]
+    cases s' with
+    | none =>
+      simp only [List.mem_singleton, forall_eq, List.pairwise_cons, List.not_mem_nil, false_implies,
+        implies_true, List.Pairwise.nil, and_self, and_true]
+      exact ⟨Int.le_refl _, hg.2.2.2⟩
+    | some s'' =>
+      obtain ⟨⟨hg', hx'⟩, hlt⟩ := hpost.1 s'' rfl
+      dsimp only at hg' hx' hlt
+      have hle : l.pos ≤ l'.pos := pos_le_of_phi_lt hg.2.2.2 hg'.2.2.2 hlt
+      obtain ⟨hall, hpw⟩ := ih s'' l' hg' hx'
+      refine ⟨?_, ?_⟩
+      · intro p hp
+        simp only [List.mem_cons] at hp
+        rcases hp with rfl | hp
+        · exact ⟨Int.le_refl _, hg.2.2.2⟩
+        · have := hall p hp
+          exact ⟨by omega, this.2⟩
+      · rw [List.pairwise_cons]
+        refine ⟨fun p hp => ?_, hpw⟩
+        have := hall p hp
+        omega
+
+/-- for the run of `lexAll`: the entry positions of its (at most `7n + 8`) state-function calls are sorted, in `[0, n]` -/
+theorem lexAll_positions_sorted (input : Bytes) (exprMode : Bool) :
+    let ps := runPos (Lex.fuelFor input.length) (if exprMode then .insideTag else .text) (Lex.initLexer input)
+    ps.Pairwise (· ≤ ·) ∧ (∀ p ∈ ps, 0 ≤ p ∧ p ≤ input.length) ∧ ps.length ≤ Lex.fuelFor input.length + 1 := by
+  intro ps
+  obtain ⟨hall, hpw⟩ := runPos_sorted (input.length : Int) (Lex.fuelFor input.length)
+    (if exprMode then .insideTag else .text) (Lex.initLexer input) (init_good input) (init_extra input exprMode)
+  refine ⟨hpw, fun p hp => ?_, ?_⟩
+  · have := hall p hp
+    have h0 : (Lex.initLexer input).pos = 0 := rfl
+    omega
+  · have hlen : ∀ (k : Nat) (s : Lex.St) (l : Lex.Lexer), (runPos k s l).length ≤ k + 1 := by
+      intro k
+      induction k with
+      | zero => intro s l; simp [runPos]
+      | succ k ih =>
+        intro s l
+        unfold runPos
+        split
+        · rename_i s' l' _; simp only [List.length_cons]; have := ih s' l'; omega
+        · simp
+    exact hlen _ _ _
 
 end SoyVerif.Props.C05
